@@ -13,14 +13,26 @@ open TH
     whatever the pieces, chunks are cut at 8192 bytes and the terminal chunk follows. -/
 theorem pieces_irrelevant (pieces : List Bytes) :
     encodeChunked pieces = Spec.enchunk pieces.flatten := by
-  sorry
+  have h0 : EncInv' ⟨[], []⟩ [] :=
+    ⟨⟨[], by simp, by simp, by simp, by simp⟩, fun h => absurd rfl h⟩
+  have h := Enc.fold_inv pieces ⟨[], []⟩ [] h0
+  rw [List.nil_append] at h
+  exact Enc.finish_of_inv _ _ h
 
 /-- An RFC 7230 chunk decoder recovers exactly the body from the encoder's output and stops at
     its end, whatever follows on the connection. -/
 theorem dechunk_enchunk (body rest : Bytes) (fuel : Nat)
     (hf : (Spec.enchunk body ++ rest).length < fuel) :
     Client.dechunk fuel (Spec.enchunk body ++ rest) = some (body, rest) := by
-  sorry
+  obtain ⟨cs, hne, hfl, heq⟩ := enchunkAux_chunks (body.length + 1) body (by omega)
+  have hlen : cs.length < fuel := by
+    have h1 := length_le_frames cs
+    unfold Spec.enchunk at hf
+    rw [heq] at hf
+    simp only [List.length_append] at hf
+    omega
+  unfold Spec.enchunk
+  rw [heq, dechunk_frames cs fuel rest hne hlen, hfl]
 
 /-- In answer to HEAD and with 1xx, 204 and 304 statuses nothing follows the header block. -/
 theorem no_body_bytes (r : Resp) (c : ReqCtx) (date : Bytes) (pieces : List Bytes) (out : Bytes)
